@@ -219,8 +219,8 @@ func runC02(c *Ctx, r *Report, tier string) {
 		r.Check(g, "RUNES", sn, "split only when the first rune names an argument-taking option", c.ipos(ret), "REQ(lookup(first).canArgument())", "the concatenated argument is split off without checking that the first rune takes an argument")
 	}
 	psn := c.fname(ps)
-	rng := "next(range(phi{P2 | call:(*Parser).splitShortConcatArg(P0, P1, P2)#0}))"
-	lastLit := "eq((" + rng + "#1 + call:unicode/utf8.RuneLen(" + rng + "#2)), len(phi{P2 | call:(*Parser).splitShortConcatArg(P0, P1, P2)#0}))"
+	cluster := "phi{P2 | call:(*Parser).splitShortConcatArg(P0, P1, P2)#0}"
+	lastLit := "eq((runepos(" + cluster + ") + call:unicode/utf8.RuneLen(runeat(" + cluster + "))), len(" + cluster + "))"
 	for _, in := range c.instrs(ps, c.isCallTo("(*Parser).parseOption")) {
 		call := in.(*ssa.Call)
 		canarg := call.Call.Args[4]
